@@ -539,6 +539,12 @@ Definition roles_inv (s : pstate) : Prop :=
   (forall h x c, ps s !! h = Some x -> c ∈ clients x -> c <> h /\ is_Some (ps s !! c)) /\
   (forall c y h, ps s !! c = Some y -> link_up y = true -> client_of y = Some h -> c <> h /\ is_Some (ps s !! h)).
 
+(* the window of a freshly promoted host: while its flag is set it has either seen nobody yet, or the
+   oldest unread ServerEvent is a ClientConnected (which will clear the flag before any
+   ClientDisconnected can close the server) *)
+Definition window (x : ppeer) : Prop :=
+  flag x = true -> (srv_events x = [] /\ clients x = []) \/ (exists c q, srv_events x = (true, c) :: q).
+
 (* ---------- example runs ---------------------------------------------------------------------------- *)
 Local Open Scope N_scope.
 
